@@ -62,6 +62,10 @@ pub fn scenarios() -> Vec<Scenario> {
         "{head}tx t(q: Int) {{\n    input src {{ from: S, min_amount: AnyAsset(0x{p}, \"TK\", 3) + fees, }}\n    output {{ to: R, amount: AnyAsset(0x{p}, \"TK\", 3) + Ada(q), }}\n    output {{ to: S, amount: src - AnyAsset(0x{p}, \"TK\", 3) - Ada(q) - fees, }}\n}}\n",
         p = hex::encode([0x44u8; 28])
     );
+    // a payload beyond 65535 bytes (a 70 000-byte inline datum): the fee is linear in the whole length
+    let large = format!("{head}tx t(q: Int, blob: Bytes) {{\n    input src {{ from: S, min_amount: Ada(q) + fees, }}\n    output {{ to: R, amount: Ada(q), datum: blob, }}\n    output {{ to: S, amount: src - Ada(q) - fees, }}\n}}\n");
+    let mut large_args = args.clone();
+    large_args.insert("blob".into(), ArgValue::Bytes(vec![0x5a; 70_000]));
     let ample = vec![coin(0x31, 0, 80_000_000)];
     let ladder: Vec<Utxo> = (0..12).map(|i| coin(0x40 + i as u8, i, 60_000 + 9_000 * i as i128)).collect();
     let tiny: Vec<Utxo> = (0..14).map(|i| coin(0x60 + i as u8, i, 100 + 37 * i as i128)).collect();
@@ -85,6 +89,7 @@ pub fn scenarios() -> Vec<Scenario> {
         Scenario { name: "min-utxo/several", src: min_utxo.clone(), args: args.clone(), utxos: mid.clone() },
         Scenario { name: "min-utxo-many/several", src: min_utxo_many.clone(), args: args.clone(), utxos: mid.clone() },
         Scenario { name: "token-change/ample", src: token, args: args.clone(), utxos: vec![with_token] },
+        Scenario { name: "transfer-70000-byte-datum/huge", src: large, args: large_args, utxos: vec![coin(0x34, 0, 500_000_000_000)] },
     ]
 }
 
@@ -279,7 +284,7 @@ impl Prop for C05 {
             "rounds of the resolve loop as transitions (each executes the real apply_fees / compiler ops / reduce / inputs::resolve / compile): for every \
              configuration of the grid coefficient in {} x constant in {:?} x extra_fees in {{None, 0, 7}} x coins_per_utxo_byte in {{1, 4310}}, plus \
              width windows (coefficient 0/1, margin 0, constant through [0,300], [65400,65700], [2^32-300, 2^32+300]; for the min_utxo scenarios coins_per_utxo_byte through [250, 360] + {{1, 2, 4310, 65535, 65536}}, where a deposit changes its encoded width between rounds), and every one of {} template / store \
-             scenarios (fees in change, in min_amount, input* whose selection grows with the fee, one and two min_utxo, token change; ample / tight / \
+             scenarios (fees in change, in min_amount, input* whose selection grows with the fee, one and two min_utxo, token change, a payload of 70 000 bytes; ample / tight / \
              several / ladder / tiny stores) the orbit of fee -> transaction -> fee is followed to a fixed point, a cycle or 32 rounds, and resolve_tx is \
              called: its result must have body fee = reported fee = coefficient*|payload| + constant + margin, be reproduced by one more round, hold in `small` exactly the deposit of `small` as encoded in the returned transaction, and \
              balance against the store. Candidate sets are handed out in a fixed order so that orbits are functions of the configuration.",
@@ -291,11 +296,11 @@ impl Prop for C05 {
     fn assumptions(&self) -> Vec<String> {
         vec![
             "max_optimize_rounds = 10 as the caller's budget".into(),
-            "stores and templates outside the 14 scenarios are not covered; selection tie-breaks are fixed by handing candidates out in one order".into(),
+            "stores and templates outside the 15 scenarios are not covered; selection tie-breaks are fixed by handing candidates out in one order".into(),
         ]
     }
     fn bound(&self, tier: Tier) -> String {
-        format!("{} coefficients x 10 constants x 3 margins x 2 utxo costs x 14 scenarios; orbits to 32 rounds", coefficients(tier).len())
+        format!("{} coefficients x 10 constants x 3 margins x 2 utxo costs x 15 scenarios; orbits to 32 rounds", coefficients(tier).len())
     }
     fn enumerate(&self, tier: Tier, sink: &mut Sink) {
         let n = scenarios().len();
